@@ -20,7 +20,12 @@ DYN_G = {}          # erased field -> reason; roles discovered in the unit being
 DYN_CONTAINER = set()
 
 
+CUR_TU = [None]
+
+
 def set_unit(tu):
+    CUR_TU[0] = tu
+    CORE_CLASSES.update(lib.holder_classes(tu))
     """Shared fields are recognised by role, so that a renamed or regrouped member keeps its classification:
     the handler's limits and counter (rules/C03.roles: what get_min_calls()/get_calls() return plus the one
     integral field left), the expectation's only boolean member (the reported flag), the only pointer member of
@@ -157,6 +162,8 @@ def classify_field(field):
     if fe == "trompeloeil::null_on_move::p" or (fe.startswith("trompeloeil::null_on_move::") and fe in DYN_G):
         return "G"  # any instantiation of the slot type
     if fe in DYN_CONTAINER:
+        return "container"
+    if CUR_TU[0] is not None and lib.holder_field(CUR_TU[0], fe):
         return "container"
     for name, tab in (("publish-immutable", PUBLISH_IMMUTABLE), ("container", CONTAINER),
                       ("builder-pointer", BUILDER_POINTER), ("atomic", ATOMIC), ("local", LOCAL)):
